@@ -593,6 +593,30 @@ package analysis
 //@   ensures other != nil ==> sameFlags(*a, *other) && a.schema == old(a.schema) && a.root == old(a.root) && a.basePath == old(a.basePath)
 //@   ensures other == nil ==> *a == old(*a)
 
+// ---- termination measure of the schema classification (C09 / C20), machine-checked part.
+// Schema recurses (a) structurally, into the element schema of a map or an array, with the same set of $refs being
+// unfolded, and (b) through a $ref, into the expansion of its target. The measure is lexicographic:
+// (number of $ref strings of the document not yet being unfolded, size of the schema value). The clauses below are
+// proved at every call of Schema in the three helpers: (b) happens only for a $ref that is not being unfolded and
+// passes on a strictly larger set; (a) passes on the same set. Not machine-checked: that a document has finitely many
+// $ref strings, and that schema values are finite trees.
+//@ func isVisitedRef(visited, ref)
+//@   modifies nothing
+//@   ensures result == inStrs(visited, ref)
+//@   loop 1: invariant forall j in 0..idx :: visited[j] != ref
+//@ func withVisitedRef(visited, ref)
+//@   modifies nothing
+//@   ensures len(result) == len(visited) + 1 && result[len(visited)] == ref && (forall i in 0..len(visited) :: result[i] == visited[i])
+//@ func (a *AnalyzedSchema) inferFromRef()
+//@   inline
+//@   callsite Schema: !inStrs(a.visitedRefs, a.schema.Ref.String()) && inStrs(callee_opts.visitedRefs, a.schema.Ref.String()) && (forall i in 0..len(a.visitedRefs) :: inStrs(callee_opts.visitedRefs, a.visitedRefs[i]))
+//@ func (a *AnalyzedSchema) inferMap()
+//@   inline
+//@   callsite Schema: callee_opts.visitedRefs == a.visitedRefs
+//@ func (a *AnalyzedSchema) inferArray()
+//@   inline
+//@   callsite Schema: callee_opts.visitedRefs == a.visitedRefs
+
 // strfmt.Default (the global format registry) is initialised by its package
 //@ func Schema(opts)
 //@   requires strfmt.Default != nil
